@@ -66,6 +66,38 @@ theorem online_eq_player_count (e : Env) (s : St) (fs : List Frame) (o : Out) (h
         subst ho; simp [isResponse] at hr
     · simp [run_closed e s hc] at ho
 
+/-! ### `players.online` after every registry history
+
+The `online` input of the status handler is `Proxy.PlayerCount()`, the size of the UUID index after the
+register/unregister history so far.  For every history, in both registry modes, that is the number of players that
+are online (registered and neither unregistered nor kicked since). -/
+
+theorem online_eq_registered (a : Attrs) (kick : Bool) (ops : List RegOp) :
+    playerCount (regRun a kick {} ops) = (regRun a kick {} ops).live.length := by
+  unfold playerCount
+  rw [regRun_ids_live a kick ops {} rfl]
+
+/-- end to end in the model: after any registry history a first status request is answered with the number of
+    online players -/
+theorem status_online_follows_registry (a : Attrs) (kick : Bool) (ops : List RegOp) (p : Int) (m : Nat) :
+    (step { proto := p, online := playerCount (regRun a kick {} ops), showMax := m } {} .request).2 =
+      [.response (advertised p) (regRun a kick {} ops).live.length m] := by
+  simp [step, online_eq_registered]
+
+/-- outside kick mode the name index has the same size (so counting it is harmless there) … -/
+theorem count_by_names_ok_without_kick (a : Attrs) (ops : List RegOp) :
+    playerCountByNames (regRun a false {} ops) = (regRun a false {} ops).live.length := by
+  unfold playerCountByNames
+  rw [regRun_names_ids_nokick a ops {} rfl, regRun_ids_live a false ops {} rfl]
+
+/-- … but in kick mode it is wrong: two online players with different UUIDs and the same lower-cased name are
+    counted as 1, and as 0 after the later one left while 1 is still online -/
+theorem count_by_names_fails :
+    let a : Attrs := { nameOf := fun _ => "x", idOf := fun c => c }
+    playerCountByNames (regRun a true {} [.reg 0, .reg 1]) = 1 ∧ (regRun a true {} [.reg 0, .reg 1]).live.length = 2 ∧
+    playerCountByNames (regRun a true {} [.reg 0, .reg 1, .unreg 1]) = 0 ∧
+      (regRun a true {} [.reg 0, .reg 1, .unreg 1]).live.length = 1 := by decide
+
 /-! ### the ping: byte-identical echo, then close -/
 
 theorem echo_identical_then_close (e : Env) (s : St) (ho : s.closed = false) (payload : Bytes) (fs : List Frame) :
